@@ -13,11 +13,12 @@ def c06():
         level="exploration",
         rule=("(a) ev_program: rapidcheck sequences of add/enable/disable/delete with generated event kind, flags (valid and unknown bits), "
               "filter flags (all four units, ABSTIME, unknown bits), data values around unit boundaries / 2^32 / random 62-bit, valid and "
-              "invalid identifiers, NULL callback; the arguments reaching timerfd_create/timerfd_settime/epoll_ctl are captured and compared "
+              "invalid identifiers (also 2^32|fd and 2^63|fd), NULL callback; the arguments reaching timerfd_create/timerfd_settime/epoll_ctl are captured and compared "
               "with an exact 128-bit integer conversion; plus an exhaustive unit-boundary table. (b) ev_fire: rapidcheck histories over 1-3 "
               "channels (socketpair read, socketpair write, 1-12 ms timers) of add/enable/disable/delete (on the owning thread or from "
               "outside), peer write, drain, peer close, half close, sleep, descriptor reuse (both ends closed without a delete and a new socket pair "
-              "on the same number while the user record keeps its state); a per-channel model predicts silent / exactly-once / at-least-once; negative "
+              "on the same number while the user record keeps its state), pipe write ends whose reader closes (error condition), timers named after the "
+              "descriptor number of another channel; a per-channel model predicts silent / exactly-once / at-least-once; negative "
               "claims are sequenced through the owning thread with fences, awaited callbacks use a 20 s ceiling (3 of 3 runs). (c) ev_proc: "
               "rapidcheck histories over 1-3 real child processes (forked by the harness, exit code 0..255 or killed by SIGKILL) of "
               "add/enable/disable/delete (valid and malformed flags / filter flags, in-thread or from outside), child exit and sleep, also for "
